@@ -17,6 +17,10 @@ ASSUMES = ["pre-terminal well-formed (seg_ok): every C_n follows an A_n whose wo
 CAT = {"M": 0, "C": 1}
 
 
+import loader_tie as _loader_tie
+TRUSTED = TRUSTED + [_loader_tie.TRUSTED]
+
+
 def collect(g, pt, limit):
     """create_guesses with print_guess collected; returns (lines, count) or None if it raised."""
     lines = []
@@ -241,6 +245,9 @@ def run(ctx):
     # second tie to the source (translator): name the broken equality if the build lost ExpandGenProofs
     import expand_tie
     corr.append(expand_tie.obligation())
+    # ... and of the loader that builds the groups (group-probability clause)
+    import loader_tie
+    corr.append(loader_tie.obligation())
     return {"evaluations": dist["calls"], "distinct_nontrivial": nontrivial, "rule": rule, "samples": samples,
             "corr": corr, "violations": vio, "dist": dist}
 
